@@ -120,6 +120,14 @@ def run_impl(case, collect_model_steps=True):
                 else:
                     obj, m["src"] = w.src_obj(st), w.src_json(st)
                 msteps.append(m)
+                held = None
+                if st.get("hold_open"):
+                    # another part of the program still has the OLD file open for reading while it is replaced
+                    import h5py
+                    pth = w.path(st["path"])
+                    if os.path.exists(str(pth)) and h5py.is_hdf5(str(pth)):
+                        held = h5py.File(str(pth), "r")
+                failed = False
                 try:
                     with common.quiet():
                         emdfile.save(w.path(st["path"]), obj, mode=st["mode"], tree=st.get("tree", True),
@@ -127,8 +135,12 @@ def run_impl(case, collect_model_steps=True):
                     obs.append({"ok": True})
                 except Exception as e:
                     obs.append(alpha.exc_kind(e))
-                    if not case.get("continue_after_failure"):
-                        break
+                    failed = True
+                finally:
+                    if held is not None:
+                        held.close()
+                if failed and not case.get("continue_after_failure"):
+                    break
             elif do == "read":
                 msteps.append(dict(st))
                 try:
